@@ -2,6 +2,9 @@ import WpModel.Drive.Loop
 import WpModel.Drive.BoxModel
 import WpModel.Drive.BoxEdges
 import WpModel.Drive.Paginate
+import WpModel.Drive.UsedCheck
+import WpModel.Drive.ShrinkFit
 
 def main : IO Unit :=
-  Wp.Drive.runDriver [Wp.Drive.BoxModel.handle, Wp.Drive.BoxEdges.handle, Wp.Drive.Paginate.handle]
+  Wp.Drive.runDriver [Wp.Drive.BoxModel.handle, Wp.Drive.BoxEdges.handle, Wp.Drive.Paginate.handle,
+    Wp.Drive.UsedCheck.handle, Wp.Drive.ShrinkFit.handle]
